@@ -253,6 +253,19 @@ def brQuery (toks : List String) : String :=
     | none => "bad-query"
   | _ => "bad-query"
 
+/-- `lockorder <held role>* / <acquired role>`: the acquisition audit `Locks.acquireOk` -/
+def lockOrderQuery (toks : List String) : String :=
+  let role : String → Option Conc.Locks.Role
+    | "buffer" => some .buffer | "file" => some .file | "cls" => some .cls | _ => none
+  let held := toks.takeWhile (· ≠ "/")
+  let rest := (toks.dropWhile (· ≠ "/")).drop 1
+  match rest with
+  | [acq] =>
+    match held.mapM role, role acq with
+    | some hs, some a => if Conc.Locks.acquireOk hs a then "order: ok" else "order: inversion"
+    | _, _ => "bad-query"
+  | _ => "bad-query"
+
 /-- `attr <family> <get|set|del> <dunder 0/1> <key>`: routing of an attribute-syntax access on
 the family's dict class, from the regenerated class table -/
 def attrQuery (toks : List String) : String :=
@@ -293,6 +306,7 @@ def step (d : Drv) (line : String) : Drv × List String :=
   match d.bst, toks with
   | _, "fs" :: rest => (d, [fsQuery rest])
   | _, "br" :: rest => (d, [brQuery rest])
+  | _, "lockorder" :: rest => (d, [lockOrderQuery rest])
   | _, "attr" :: rest => (d, [attrQuery rest])
   | _, "res" :: rest => (d, [resQuery rest])
   | _, ["resmode"] => (d, [match Generated.blocklistMode with | .subclassAware => "mode: subclassAware" | .exactType => "mode: exactType" | .unknownMode => "mode: unknown"])
